@@ -478,6 +478,7 @@ fn parse_xref_table(buf: &[u8], pos: usize) -> Result<Section, StrictError> {
     let mut p = pos + 4;
     p = read_line_end(buf, p).ok_or(StrictError { rule: 3, msg: "'xref' not followed by EOL".into() })?;
     let mut entries = BTreeMap::new();
+    let mut seen_subsection = false;
     loop {
         // sub-section header or 'trailer'
         let mut q = p;
@@ -485,9 +486,13 @@ fn parse_xref_table(buf: &[u8], pos: usize) -> Result<Section, StrictError> {
             q += 1;
         }
         if buf[q..].starts_with(b"trailer") {
+            if entries.is_empty() && !seen_subsection {
+                return err(3, "cross-reference table without any sub-section");
+            }
             p = q;
             break;
         }
+        seen_subsection = true;
         // "first count" EOL
         let line_start = p;
         let mut e = p;
